@@ -13,8 +13,8 @@ On every run of ./check C05:
                          enumerates anyway + int-boundary indices + rank mismatches, compare with the hand-written model;
                          replay the deviations on the leaf driver that links /repo's own interpreter.h (and on a UBSan
                          build of it when the generated function reaches undefined behaviour), those of the ArrayManager
-                         branches as Cb programs (element write / read on global and struct-member arrays) on the real
-                         binary; without a model (translator failed) the leaf driver is compared with the property's own
+                         branches as Cb programs (element write / read on global and struct-member arrays; the float read
+                         path as reads of double arrays) on the real binary; without a model (translator failed) the leaf driver is compared with the property's own
                          reading on the whole exhaustive stream.  VIOLATION with that replay; `no_failing_input` only if
                          none is found.
 """
@@ -200,7 +200,7 @@ def search(rep, status, tinfo, failed, leaf_lines, program_replay=None, program_
                 continue
             got = program_replay(dv["copy"], dv["dims"], dv["idxs"])
             if got is not None:
-                found = {"line": "%s a%s on %s int%s" % (got["ops"][0][0], "".join("[%d]" % i for i in dv["idxs"]), got["loc"], "".join("[%d]" % d for d in dv["dims"])),
+                found = {"line": "%s a%s on %s %s%s" % (got["ops"][0][0], "".join("[%d]" % i for i in dv["idxs"]), got["loc"], got.get("elem", "int"), "".join("[%d]" % d for d in dv["dims"])),
                          "generated": dv["generated"], "model": dv["model"], "build": "plain", "program_case": got,
                          "why": "main violates the property on the generated program (branch %s)" % dv["copy"]}
                 break
@@ -232,7 +232,7 @@ def search(rep, status, tinfo, failed, leaf_lines, program_replay=None, program_
     if found is None and program_sweep is not None and (status == "failed" or any(dv.get("copy") for dv in devs)):
         got = program_sweep()
         if got is not None:
-            found = {"line": "%s a%s on %s int%s" % (got["ops"][0][0], "".join("[%d]" % i for i in got["ops"][0][1]), got["loc"], "".join("[%d]" % d for d in got["dims"])),
+            found = {"line": "%s a%s on %s %s%s" % (got["ops"][0][0], "".join("[%d]" % i for i in got["ops"][0][1]), got["loc"], got.get("elem", "int"), "".join("[%d]" % d for d in got["dims"])),
                      "build": "plain", "program_case": got,
                      "why": "main violates the property on this element access of a generated program"}
     if found is None:
